@@ -62,6 +62,27 @@ def stepRetry (s : St) (i : Nat) : St :=
   | .done _ => s
   | .failed _ => s
 
+/-- a variant whose loop gives up after `budget` attempts (`for _ in range(budget)` … `else: raise`):
+    the `budget`-th rejected insert leaves the constructor with an exception (`PC.failed`) -/
+def stepBounded (budget : Nat) (s : St) (i : Nat) : St :=
+  match s.pc i with
+  | .idle => { s with pc := upd s.pc i (.counted s.ids.length) }
+  | .counted k =>
+    if s.ids.contains k then
+      if s.retries i + 1 < budget then
+        { s with pc := upd s.pc i .idle, retries := upd s.retries i (s.retries i + 1) }
+      else
+        { s with pc := upd s.pc i (.failed k), retries := upd s.retries i (s.retries i + 1) }
+    else { s with ids := s.ids ++ [k], pc := upd s.pc i (.done k), log := s.log ++ [i] }
+  | .done _ => s
+  | .failed _ => s
+
+/-- the adversarial schedule: session 0 (the victim) is parked between its count and its insert while
+    rival m runs to completion, for m = 1 … rounds:  0 1 1 0 | 0 2 2 0 | … -/
+def victim : Nat → List Nat
+  | 0 => []
+  | m + 1 => victim m ++ [0, m + 1, m + 1, 0]
+
 /-- identifier assigned by one atomic statement -/
 def stepAtomic (s : St) (i : Nat) : St :=
   match s.pc i with
